@@ -156,6 +156,24 @@ var c04Templates = [][]string{
 	{"zrange", "kz", "[a", "+", "bylex", "limit", "0", "1"},
 	{"lpos", "kl", "a", "rank", "-1", "count", "2", "maxlen", "3"},
 	{"lmove", "kl", "kmissing", "left", "right"},
+	{"lmove", "kl", "kh", "left", "right"},
+	{"lmove", "kl", "kS", "right", "left"},
+	{"lmove", "kl", "kl", "right", "left"},
+	{"smove", "kS", "kz", "m1"},
+	{"smove", "kS", "kS", "m1"},
+	{"rename", "ks", "kl"},
+	{"rename", "kl", "kl"},
+	{"sinterstore", "kh", "kS"},
+	{"sunionstore", "kl", "kS", "kS"},
+	{"sdiffstore", "ks", "kS", "kx"},
+	{"sdiffstore", "kz", "kmissing", "ks"},
+	{"mset", "ks", "v", "kl", "w", "ks", "x"},
+	{"mget", "ks", "kl", "kmissing", "ks"},
+	{"del", "ks", "kl", "ks"},
+	{"exists", "ks", "kmissing", "ks"},
+	{"sunion", "kS", "kl"},
+	{"sinter", "kmissing", "kl"},
+	{"sdiff", "kS", "kmissing", "kh"},
 	{"lpop", "kl", "2"},
 	{"lrem", "kl", "-1", "a"},
 	{"ltrim", "kl", "0", "-1"},
@@ -204,8 +222,10 @@ func c04FromTemplate(r *core.Rand, cell int) []B {
 	default:
 		// a value replaced by an option keyword (or an option by a value)
 		i := 1 + (variant/3)%(len(t)-1)
-		if os := cmdOptions[t[0]]; len(os) > 0 && r.Bool(0.7) {
+		if os := cmdOptions[t[0]]; len(os) > 0 && r.Bool(0.6) {
 			a[i] = pick(r, os)
+		} else if r.Bool(0.4) {
+			a[i] = pick(r, typedKeys)
 		} else {
 			a[i] = pick(r, advAlphabet)
 		}
@@ -229,6 +249,18 @@ func genC04(r *core.Rand, env *core.Env, run int) *Scenario {
 		Strategy: pick(r, []int{0, 1}), Preload: c04Preload()}
 	att := ClientProg{Name: "c0", Role: "attacker", Pipeline: 1, Chunked: r.Bool(0.1)}
 	by := ClientProg{Name: "c1", Role: "bystander", Pipeline: 1}
+	if r.Bool(0.25) {
+		// the typed keys carry a deadline that has just passed and has not been
+		// reaped yet (deadlines are whole seconds, the reaper fires a whole TTL after
+		// the EXPIRE): every input then meets the lazy-expiry path of its command
+		att.Steps = append(att.Steps, Step{Kind: "sleep", Sleep: 600 * time.Millisecond})
+		for _, k := range typedKeys[:6] {
+			if r.Bool(0.7) {
+				att.Steps = append(att.Steps, Step{Kind: "cmd", Args: bs("expire", k, "1"), Tag: "probe"})
+			}
+		}
+		att.Steps = append(att.Steps, Step{Kind: "sleep", Sleep: time.Duration(450+r.Intn(100)) * time.Millisecond})
+	}
 	n := 4 + r.Intn(10)
 	// systematic coverage: the run index walks the (command x arity) grid
 	for i := 0; i < n; i++ {
